@@ -11,7 +11,10 @@ LEVEL = "exploration"
 RULE = ("Stateful generation of request histories (length 2..25) for the real JSON session against an abstract state "
         "{idle, paused-at-error}: evaluations whose value embeds the request index, definitions, failing code "
         "(error inside nested calls / a finite for body / a plain expression), parse errors, malformed JSON, valid "
-        "JSON that is not a request, eval_up_to, load, and every REPL command except :quit/:trace (documented to "
+        "JSON that is not a request, eval_up_to / load (also of multi-byte sources at arbitrary byte offsets), "
+        "re-definitions of functions, methods, enums and structs (fewer / more / reordered variants and fields, "
+        "unknown type hints) while values of the old definition are held in globals, closures and paused frames, "
+        "expressions that print / compare / match those held values, and every REPL command except :quit/:trace (documented to "
         "exit / switch the output format), each generated both where it makes sense and where it does not. "
         "Oracle: process exits 0, stdout is a clean JSON stream, exactly one non-`printed` response per request, the "
         "response to every idle-state evaluation carries that request's own index, and a final probe is answered. "
@@ -32,6 +35,11 @@ MANIFEST = dict(
 )
 
 DEFS = ("fun helper(x: Int): Int { x + 1 }\n"
+        "struct Pt { x: Int, label: String }\n"
+        "fun held_kind(k: Kind): Int { let kept = k\n  1 / 0 }\n"
+        "fun held_pt(p: Pt): Int { let kept = p\n  1 / 0 }\n"
+        "fun bad_ret(): NoSuch { 1 }\n"
+        "fun bad_param(x: NoSuch): Int { 1 }\n"
         "fun boom(x: Int): Int { let local = x * 2\n  local / 0 }\n"
         "fun outer(x: Int): Int { let o = x\n  boom(o) + 1 }\n"
         "enum Kind { A, B(Int) }\n"
@@ -49,7 +57,30 @@ FAILING = [
     "assert(helper(1) == 5)",
     "throw(\"stop\")",
     "println(1)",
+    "bad_ret()",
+    "let hinted: NoSuch = 1",
+    "let hinted2: List<NoSuch> = [1]",
+    "3.twice()",
+    "(fun(q: NoSuch) { q })(1)",
+    "bad_param(1)",
+    "bad_ret() + boom(2)",
+    "held_kind(B(4))",
+    "held_pt(Pt{ x: 1, label: \"l\" })",
 ]
+# type (re)definitions: values of the old definition stay alive in globals / in a paused frame
+REDEFS = ["enum Kind { A }", "enum Kind { A, B(Int), C }", "enum Kind { B(Int) }", "struct Pt { x: Int }",
+          "struct Pt { label: String, x: Int, extra: Int }", "struct Kind { a: Int }", "enum Pt { P1, P2 }",
+          "fun helper(x: Int): Int { x + 1 }", "fun helper(): String { \"changed\" }", "fun boom(x: Int): Int { x }",
+          "fun bad_ret(): NoSuch { 1 }", "fun bad_param(x: NoSuch): Int { 1 }",
+          "method twice(this: Int): Int { this * 2 }", "method twice(this: Int): NoSuch { this * 2 }"]
+HOLDS = ["let held_a = B(2)", "let held_b = A", "let held_c = Pt{ x: 1, label: \"l\" }", "let held_d = [B(1), A]",
+         "let held_e = Some(Pt{ x: 2, label: \"m\" })", "let held_f = fun() { B(9) }", "let held_g = B"]
+SHOW_HELD = ["held_a", "held_b", "held_c", "held_d", "held_e", "held_f()", "held_g(1)", "string_repr(held_a)",
+             "string_repr(held_c)", "held_c.x", "held_c.label", "held_a == B(2)", "held_d == [B(1), A]",
+             "match held_a { B(n) => n, A => 0 }", "match held_b { A => 1, _ => 2 }", "println(held_d)",
+             "dbg(held_e)", "3.twice()"]
+MB_SRC = "let s\u00e9 = \"\u00e9\u2603\U0001F600\"\nfun lo\u00e9(): Int { 1 }\n// \u00e9\u00e9\u00e9\nlo\u00e9()\n"
+
 PARSE_ERRORS = ["let = ", "fun (", "1 +", "\"unterminated", "match x {", ")", "let x = é"]
 NOT_REQUESTS = ["{}", "[]", "1", "\"run\"", "{\"method\": \"nope\"}", "{\"method\": \"run\"}",
                 "{\"method\": \"run\", \"input\": 5}", "null"]
@@ -68,11 +99,13 @@ def gen(r):
     paused = 0         # abstract depth of pending errors (0 = idle)
     aborted_last = False
     odd = False
+    held = False
     reqs.append(["run", DEFS])
     for i in range(1, n):
         k = r.weighted([(6, "eval"), (4, "fail"), (3, "resume"), (3, "abort"), (3, "skip"), (3, "replace"),
                         (5, "inspect"), (2, "parse_error"), (1, "malformed"), (1, "not_request"), (2, "define"),
-                        (1, "forget"), (1, "eval_up_to"), (1, "load"), (1, "forget_local")])
+                        (1, "forget"), (1, "eval_up_to"), (1, "load"), (1, "forget_local"), (3, "redef"),
+                        (3, "hold"), (4, "show_held"), (1, "load_mb"), (1, "eval_up_to_mb")])
         if k == "eval":
             reqs.append(["eval", 1000 + i])
         elif k == "fail":
@@ -123,6 +156,21 @@ def gen(r):
         elif k == "eval_up_to":
             src = "let m = helper(4)\nm + 1\n"
             reqs.append(["eval_up_to", [src, r.choice([8, 12, 0, 23, 5000])]])
+        elif k == "redef":
+            reqs.append(["run", r.choice(REDEFS)])
+            if held:
+                odd = True
+        elif k == "hold":
+            reqs.append(["run", r.choice(HOLDS)])
+            held = True
+        elif k == "show_held":
+            reqs.append(["run", r.choice(SHOW_HELD)])
+        elif k == "load_mb":
+            nb = len(MB_SRC.encode("utf-8"))
+            reqs.append(["load", [MB_SRC, r.int(0, nb + 2), r.int(0, nb + 2)]])
+        elif k == "eval_up_to_mb":
+            nb = len(MB_SRC.encode("utf-8"))
+            reqs.append(["eval_up_to", [MB_SRC, r.int(0, nb + 2)]])
         elif k == "load":
             src = f"fun loaded_{i}(): Int {{ {i} }}\n"
             reqs.append(["load", [src, r.choice([0, 3]), r.choice([len(src), 5, 9999])]])
@@ -166,10 +214,16 @@ def check(case, ctx) -> Res:
         culprit = lines[k] if k < len(lines) else "?"
         sig = "session died: " + sr.run.crash_sig()
         # :skip / :replace edit the evaluator's stacks by design (see their :help text); a later step that finds
-        # the value stack empty is one recorded root cause, recognised by the panic text AND such a command earlier
+        # the value stack empty is one recorded root cause, recognised by the panic text (all of eval.rs's `Popped an empty value ...` messages are
+        # pops of that stack) AND such a command earlier
         earlier = [q[1] for q in reqs[:k + 1] if q[0] == "run" and isinstance(q[1], str)]
-        if "value stack" in sr.run.err and any(c == ":skip" or c.startswith(":replace") for c in earlier):
+        if "Popped an empty value" in sr.run.err and any(c == ":skip" or c.startswith(":replace") for c in earlier):
             sig = "session died: empty value stack after :skip/:replace"
+        elif "`for` loop index should always be an `Int`" in sr.run.err and any(
+                c == ":skip" or c.startswith(":replace") for c in earlier):
+            # same root cause inside a `for` body: the stack is not empty (the loop keeps its index and sequence
+            # there), so the step that misses the skipped value pops the loop's bookkeeping instead
+            sig = "session died: `for` loop bookkeeping popped as an operand after :skip/:replace"
         return fail(sig, f"the session process died (exit {sr.run.rc}) while handling request #{k}: {culprit}\n"
                          f"{sr.run.err[-700:]}\n--- history\n{hist}", classes=cls)
     if sr.leftover.strip():
